@@ -244,7 +244,16 @@ func c16GetStatus(c *mon.Ctx) {
 				if idx > 0 {
 					return []simkernel.Step{{Dgram: simkernel.Ack(m, 0)}, {Dgram: simkernel.Dgram(uapi.MsgGet, 0, m.Seq, 0, other)}}
 				}
-				return []simkernel.Step{{Dgram: simkernel.Ack(m, 0)}, {Dgram: simkernel.Dgram(uapi.MsgGet, 0, m.Seq, 0, payload)}}
+				d := simkernel.Dgram(uapi.MsgGet, 0, m.Seq, 0, payload)
+				// the audit message parser takes everything after the 16-byte header whatever the length field says
+				// (the kernel itself writes a payload-only length into audit records): vary the field on the reply
+				switch rep % 4 {
+				case 1:
+					binary.LittleEndian.PutUint32(d[0:], uint32(len(payload)))
+				case 2:
+					binary.LittleEndian.PutUint32(d[0:], mon.Pick(r, []uint32{0, 16, 17, uint32(len(d) - 1), uint32(len(d) + 1), uint32(len(d) + 16), 0xFFFFFFFF}))
+				}
+				return []simkernel.Step{{Dgram: simkernel.Ack(m, 0)}, {Dgram: d}}
 			}
 			cl := &libaudit.AuditClient{Netlink: sim}
 			k := &c16Case{Kind: "getstatus", Buf: payload}
